@@ -503,7 +503,31 @@ def shared_state(ctx) -> None:
     ctx.check(ordered, 'C06.register-then-mark', lz, 'PARTITIONS records an origin only after its data was registered with the backend (a failed load must not leave the origin marked as present)', marks[0], key='lazy:mark-after-register')
 
 
+def alchemy_addressing(ctx) -> None:
+    """Values and tables keep their identity on the way into SQL: (1) every literal is its own anonymous bind parameter
+    (``bindparam(None, value, type)``) - a fixed name makes all literals of a statement share one value at execution while the
+    printed SQL (what the tests and the result-cache key see) still shows each of them; (2) a source mapped to
+    ``schema.table`` is read from that schema: the table clause carries the parsed ``schema`` next to the quoted name."""
+    prog = ctx.prog
+    lit = prog.func('forml.provider.feed.reader.alchemy:Parser.generate_literal')
+    binds = [c for c in core.calls_in(lit.node) if core.call_tail(c) == 'bindparam']
+    ctx.floor('C06.addressing.bind', len(binds), 1)
+    for c in binds:
+        key = c.args[0] if c.args else next((k.value for k in c.keywords if k.arg == 'key'), None)
+        unique = any(k.arg == 'unique' and core.is_const(k.value, True) for k in c.keywords)
+        ctx.check((key is not None and core.is_const(key, None)) or unique, 'C06.addressing', lit, f'a literal is bound anonymously (bindparam(None, ...) or unique=True): `{core.src(c)[:70]}`', c, key='literal:anonymous')
+        ctx.check(len(c.args) >= 2 and core.src(c.args[1]) == 'value', 'C06.addressing', lit, 'the bound value is the literal value', c, key='literal:value')
+    init = prog.func('forml.provider.feed.alchemy:Feed.__init__')
+    tabs = [c for c in ast.walk(init.node) if isinstance(c, ast.Call) and core.src(c.func) == 'sqlalchemy.table']
+    ctx.floor('C06.addressing.table', len(tabs), 1)
+    for c in tabs:
+        ctx.check(any(k.arg == 'schema' and core.src(k.value) == 'schema' for k in c.keywords), 'C06.addressing', init, f'the table clause is qualified with the schema parsed from the mapping (`{core.src(c)[:80]}`)', c, key='table:schema')
+        groups = [st for st in ast.walk(init.node) if isinstance(st, ast.Assign) and core.src(st.value).endswith('.groups()')]
+        ctx.check(len(groups) == 1 and [core.src(e) for e in getattr(groups[0].targets[0], 'elts', [])][:1] == ['schema'], 'C06.addressing', init, 'schema is the first group of the table-name pattern, the name the second', groups[0] if groups else init.node, key='table:groups')
+
+
 def run(ctx) -> None:
+    alchemy_addressing(ctx)
     # a generator over terms/features yields for each element what that element says (Ordering.make, dissect, ...)
     ctx.floor('R-ITERCARRIED', shared.r_itercarried(ctx, ctx.prog.functions([m for m in ctx.prog.modules if m.startswith(('forml.io.dsl', 'forml.provider.feed', 'forml.io._input'))])), 2)
     # nothing is computed from a loop variable after its loop ran to completion (it would be the last element's value)
